@@ -29,6 +29,16 @@ def make_data(cfg):
     return x * cfg["scale"] if cfg.get("scale") else x
 
 
+def nn_tucker_truth(cfg):
+    """The non-negative Tucker tensor behind data kind nn_tucker_noisy: a core with exact zeros and positive factors."""
+    rng = _rng(cfg["seed"] * 7919 + 131)
+    shape = tuple(cfg["shape"])
+    rk = cfg["rank"] if isinstance(cfg["rank"], list) else [cfg["rank"]] * len(shape)
+    G = (rng.random_sample(rk) + 0.5) * (rng.random_sample(rk) < 0.5)
+    G.flat[0] = 2.0
+    return G, [rng.random_sample((s_, r_)) + 0.1 for s_, r_ in zip(shape, rk)]
+
+
 def _make_data(cfg):
     rng = _rng(cfg["seed"] * 7919 + 13)
     shape = tuple(cfg["shape"])
@@ -99,6 +109,13 @@ def _make_data(cfg):
         x = rng.random_sample(shape) + 0.1
         x[np.abs(idx[0] - idx[1]) > 1] = 0.0
         return x
+    if kind == "nn_tucker_noisy":    # non-negative Tucker structure whose core has exact zeros, plus noise at the 1e-9 level:
+        # the unconstrained least-squares core has entries of size +-1e-9 where the true core is zero
+        G, Us = nn_tucker_truth(cfg)
+        out = G
+        for m, U in enumerate(Us):
+            out = np.moveaxis(np.tensordot(U, out, axes=(1, m)), 0, m)
+        return out + 1e-9 * _rng(cfg["seed"] + 77).standard_normal(shape)
     if kind == "counts":           # non-negative counts (used with data_dtype="int64": an integer array)
         return rng.randint(0, 6, size=shape).astype(float)
     if kind == "complex":
@@ -246,10 +263,10 @@ def mins(arrs):
             out.append(0)
         elif not np.all(np.isfinite(_num(a))):
             out.append(QNAN)
-        elif np.iscomplexobj(a):
-            out.append(qe(float(a.real.min())))
         else:
-            out.append(qe(float(a.min())))
+            m = float(a.real.min()) if np.iscomplexobj(a) else float(a.min())
+            v = qe(m)
+            out.append(-1 if (m < 0 and v >= 0) else v)      # a negative entry stays negative however small it is
     return out
 
 
@@ -397,6 +414,8 @@ class _ViaWrapper:
             est = cls(rank, **{k: v for k, v in kw.items() if k in accepted}, **extra)
             if self.refit:
                 other = [np.asarray(s_) * 1.7 + 0.3 for s_ in data] if isinstance(data, list) else np.asarray(data)[..., ::-1] * 1.7 + 0.3
+                if self.refit == "order" and not isinstance(data, list) and np.ndim(data) >= 3:
+                    other = np.asarray(data)[..., 0] * 1.7 + 0.3          # an estimator fitted before on a tensor of LOWER order
                 try:
                     est.fit_transform(other)
                 except Exception:
@@ -416,7 +435,7 @@ class _ViaWrapper:
 
 def _run_alg(cfg, data, cap, with_cb, tl, D):
     if cfg.get("wrapper"):
-        D = _ViaWrapper(D, refit=bool(cfg.get("wrapper_refit")))
+        D = _ViaWrapper(D, refit=cfg.get("wrapper_refit") or False)
     alg = cfg["alg"]
     seed = cfg["seed"]
     rank = cfg["rank"]
@@ -485,7 +504,17 @@ def _run_alg(cfg, data, cap, with_cb, tl, D):
     elif alg == "constrained_parafac":
         kw = dict(n_iter_max=cap, n_iter_max_inner=cfg.get("inner", 10), init=init, tol_outer=_tol(cfg),
                   random_state=seed, return_errors=True, fixed_modes=fixed)
-        kw.update(cfg.get("constraints", {"non_negative": True}))
+        cons = {k_: ({int(m_): v_ for m_, v_ in val.items()} if isinstance(val, dict) else val)
+                for k_, val in cfg.get("constraints", {"non_negative": True}).items()}       # (JSON replays carry string keys)
+        kw.update(cons)
+        if cfg.get("prior_other_order"):
+            # the SAME specification objects used first for a tensor of another order (a per-mode dictionary with negative
+            # keys is written once and applied to tensors of any order); its result is not judged
+            other = np.multiply.outer(np.asarray(data), np.array([1.0, 0.5]))
+            try:
+                D.constrained_parafac(other, rank, **dict(kw, init="random" if not isinstance(init, str) else init, fixed_modes=None, n_iter_max=1))
+            except Exception:
+                pass
         dec, errs = D.constrained_parafac(data, rank, **kw)
         out["decomp"] = ("cp", dec[0], list(dec[1]))
         out["errs"] = errs
@@ -506,6 +535,7 @@ def _run_alg(cfg, data, cap, with_cb, tl, D):
             rng = _rng(seed * 31 + 5)
             ranks = rank if isinstance(rank, list) else [rank] * len(cfg["shape"])
             core = rng.standard_normal(ranks) if alg == "tucker" else rng.random_sample(ranks) + 0.1
+            truth = nn_tucker_truth(cfg) if cfg.get("init_kind") == "truth" else None
             fs = []
             for s, r in zip(cfg["shape"], ranks):
                 if alg == "tucker" and cfg.get("init_kind") == "raw":
@@ -514,6 +544,8 @@ def _run_alg(cfg, data, cap, with_cb, tl, D):
                     fs.append(np.linalg.qr(rng.standard_normal((s, r)))[0] if s >= r else rng.standard_normal((s, r)))
                 else:
                     fs.append(rng.random_sample((s, r)) + 0.1)
+            if truth is not None:                    # warm start AT the known solution of the noise-free problem
+                core, fs = truth[0].copy(), [u.copy() for u in truth[1]]
             rawinit = (core, fs)
             if cfg.get("init_reuse") and cfg["id"] in _SHARED_INIT:
                 init = _SHARED_INIT[cfg["id"]]
@@ -924,7 +956,7 @@ def _cfg_for_spec(cfg):
     nn = cfg.get("nn_modes")
     if cfg["alg"] == "constrained_parafac":
         v = cfg.get("constraints", {"non_negative": True}).get("non_negative")
-        nn = "all" if v is True else (sorted(int(k) for k in v if v[k]) if isinstance(v, dict)
+        nn = "all" if v is True else (sorted(int(k) % len(cfg["shape"]) for k in v if v[k]) if isinstance(v, dict)
                                       else [m for m, b in enumerate(v) if b] if isinstance(v, (list, tuple)) else None)
     if cfg["alg"] == "nn_parafac_hals" and "nn_modes" not in cfg:
         nn = "all"
@@ -975,6 +1007,20 @@ def nonneg_extra_configs(tier, seed):
     for init in ("svd", "random"):
         for data in ("generic", "nonneg"):
             add("parafac2", shape=[3, 0, 4], rows=[4, 5, 4], rank=2, data=data, init=init, tol="tiny", nn_modes="all", caps=[0, 1, 2, 5])
+    # nearly feasible unconstrained solutions: entries of the size of the noise around an exact zero must still come out >= 0
+    for j in range(6):
+        add("nn_tucker_hals", shape=[4, 5, 3], rank=[2, 2, 2], data="nn_tucker_noisy", init=["user", "svd", "user"][j % 3], init_kind="truth", tol="zero",
+            algorithm=["active_set", "fista"][j % 3 == 2], caps=[1, 2, 3, 5])
+        add("nn_tucker", shape=[4, 5, 3], rank=[2, 2, 2], data="nn_tucker_noisy", init=["svd", "random"][j % 2], tol="zero", caps=[1, 2, 3]) if j < 2 else None
+    # one specification / one estimator used for tensors of DIFFERENT order (negative keys = "from the end"; nn_modes='all')
+    for spec in ({0: True, -1: True}, {-1: True}, {-2: True, 0: True}):
+        for shp in ([4, 5, 3], [3, 4, 2, 3]):
+            add("constrained_parafac", shape=shp, rank=2, data=str(rng.choice(["signed", "generic"])), init=str(rng.choice(["svd", "random"])), tol="zero",
+                constraints={"non_negative": spec}, inner=int(rng.choice([3, 10])), prior_other_order=True, caps=[1, 2, 5])
+            add("constrained_parafac", shape=shp, rank=2, data="signed", init="random", tol="zero", constraints={"non_negative": spec}, inner=3, caps=[0, 1, 3])
+    for alg in ("nn_parafac_hals", "nn_parafac"):
+        for data in ("signed", "generic"):
+            add(alg, shape=[4, 5, 3], rank=2, data=data, init=str(rng.choice(["svd", "random"])), tol="tiny", wrapper=True, wrapper_refit="order", caps=[1, 2, 5])
     for alg in ("nn_tucker", "nn_tucker_hals"):
         for data in ("sparse", "integer"):
             add(alg, shape=[4, 5, 3], rank=[2, 2, 2], data=data, init=str(rng.choice(["svd", "random"])), tol="zero",
